@@ -126,4 +126,22 @@ theorem plotArg_pos (a : Arg) (w h : FloatV) (hp : plotArg a = some (w, h)) :
 theorem sigModeIdx_lt : sigModeIdx "VALUE" < (Gen.members .sigFigMode).length ∧
     sigModeIdx "ERROR" < (Gen.members .sigFigMode).length := by decide
 
+theorem valueIdx_isSome_iff (l : List (String × String)) (s : String) :
+    (valueIdx l s).isSome ↔ s ∈ l.map Prod.snd := by
+  induction l with
+  | nil => simp [valueIdx]
+  | cons p rest ih =>
+    obtain ⟨n, v⟩ := p
+    simp only [valueIdx, List.map_cons, List.mem_cons]
+    split
+    · rename_i h; simp [h]
+    · rename_i h
+      rw [Option.isSome_map, ih]
+      constructor
+      · exact Or.inr
+      · rintro (h' | h')
+        · exact absurd h'.symm h
+        · exact h'
+
+
 end QExPy
